@@ -209,6 +209,7 @@ VARIANTS = [
     V("groups without a valid member no longer masked in the quantile kernel", ("C18", "C01"), "R-NOVALID", "aggregate_flox.py", '    novalid = actual_sizes < 0\n    if np.any(novalid):\n        result[..., novalid] = np.nan\n', '', must_mention="neighbour"),
     V("groups without a valid member masked only when NaN is not skipped", ("C18", "C01"), "R-NOVALID", "aggregate_flox.py", '    novalid = actual_sizes < 0\n    if np.any(novalid):\n', '    novalid = actual_sizes < 0\n    if not skipna and np.any(novalid):\n', must_mention="neighbour"),
     V("twin: no-valid mask applied without the any() shortcut", ("C18", "C01"), "", "aggregate_flox.py", '    novalid = actual_sizes < 0\n    if np.any(novalid):\n        result[..., novalid] = np.nan\n', '    result[..., actual_sizes < 0] = np.nan\n', expect="silent"),
+    V("variance shift promotes against a bare Python int", ("C20", "C01"), "R-VARSHIFT[width]", "aggregate_npg.py", '    dtype = np.float64 if array.dtype.kind in "iub" else array.dtype', '    dtype = np.result_type(array.dtype, -1)', must_mention="u1"),
     V("dtype promotion memoised with an untyped key", ("C14",), "R-MEMO", "xrdtypes.py", '        dtype = np.result_type(dtype, fill_value)\n    return dtype\n',
       '        dtype = _promote_for_fill_value(dtype, fill_value)\n    return dtype\n\n\n@functools.lru_cache\ndef _promote_for_fill_value(dtype: np.dtype, fill_value) -> np.dtype:\n    return np.result_type(dtype, fill_value)\n', must_mention="typed"),
     V("twin: dtype promotion memoised with typed=True", ("C14",), "", "xrdtypes.py", '        dtype = np.result_type(dtype, fill_value)\n    return dtype\n',
